@@ -69,6 +69,13 @@ def run(facts, rep, tier, ctx):
     physrules.mkdir_not_asked(facts, rep, "R17.3p", ws, D)
     # R17.4 adapters
     c07.delegation(facts, rep, ws, "R17.4a", D)
+    # (the altroot translator refuses no name of its own — a substring test like contains("..") rejects legal names — and
+    # the overlay's layer paths are relative to the layer: a create that lands outside the write layer is not seen afterwards)
+    from .c10 import _Prefixed as _Pf17
+    for w17 in (ws, World(facts, True)):
+        if w17.present():
+            c07.gate_rules(facts, _Pf17(rep, ("A/" if w17.asyncw else "") + "R17.4g"), w17, D)
+            c09.relative_join_rules(facts, rep if not w17.asyncw else _Pf17(rep, "A"), w17, rule="R17.4j")
     c09.table_u(facts, rep, ws, "R17.4o", only=("create_dir",))
     c09.materialisation_rules(facts, rep, ws, "R17.4o")
     c10.marker_rules(facts, rep, ws, prefix="R17.4m", only=("R10.3", "R10.2"))
